@@ -145,6 +145,11 @@ class Verdict:
         self.notes = []
         self.t0 = time.time()
         self._known = load_known()
+        for f in glob.glob(os.path.join(REPLAYS, "%s_*.json" % prop)):      # replays of earlier runs
+            try:
+                os.remove(f)
+            except OSError:
+                pass
 
     def violation(self, signature, what, replay_obj):
         k = match_known(self.prop, signature, self._known)
